@@ -436,12 +436,12 @@ def run(run):
     def r2():
         C = facts["cwe_checker"]
         m = C.fn("run_with_ghidra")
-        t = S.Sym(C).term(m["body"])
-        st = list(t[1]) + [t[2]] if t[0] == "seq" else [t]
-        isort = [i for i, s in enumerate(st) if s[0] == "call" and s[1] in ("sort", "sort_unstable") and s[2] and s[2][0][0] == "var" and s[2][0][1] == "all_cwes"]
-        iprint = [i for i, s in enumerate(st) if any(is_call(x, "print_all_messages") for x in S.subterms(s))]
-        iapp = [i for i, s in enumerate(st) if any(is_call(x, ("append", "push", "extend")) and x[2] and x[2][0][0] == "var" and x[2][0][1] == "all_cwes" for x in S.subterms(s))]
-        run.check("R2", "final-sort", bool(isort) and bool(iprint) and isort[0] < iprint[0] and (not iapp or max(iapp) < isort[-1]), "the collected warnings must be sorted (total order over all fields) after the last module ran and before printing", C.loc(m["body"]))
+        from .lib import sortprint as SP2
+        sp_ = SP2.analyse(C, m)
+        if sp_["verdict"] == "undecided":
+            run.undecided("R2", "final-sort", sp_["why"], C.loc(m["body"]))
+        else:
+            run.check("R2", "final-sort", sp_["verdict"] == "holds", "the collected warnings must be sorted (total order over all fields) after the last module ran and before printing: %s" % sp_["why"], C.loc(m["body"]))
         F = facts["cwe_checker_lib"]
         # CweWarning derives Ord
         ords = [i for i in F.impls if i.get("trait", "").endswith("cmp::Ord") and i.get("adt", "").endswith("utils::log::CweWarning")]
@@ -465,8 +465,7 @@ def run(run):
         run.floor("warning dedup containers", n, 3)
         if bad:
             run.note("warnings/logs are deduplicated in hash containers at %s: the survivor is decided by insertion order (deterministic), the iteration order by the hash seed (repaired by the final sort for warnings, visible for log messages)" % bad[:3])
-        pc = [x for s0 in st for x in S.subterms(s0) if is_call(x, "print_all_messages")]
-        run.check("R2", "printed-vector-is-the-sorted-one", bool(pc) and len(pc[0][2]) >= 2 and pc[0][2][1][0] == "var" and pc[0][2][1][1] == "all_cwes", "print_all_messages must receive the sorted vector all_cwes itself", C.loc(m["body"]))
+        run.check("R2", "printed-vector-is-the-sorted-one", sp_["printed_is_var"] and sp_["verdict"] != "violated", "print_all_messages must receive the sorted vector itself", C.loc(m["body"]))
 
     run.guarded("R2", r2)
     run.note("R3: %d order-sensitive sites whose sink is the IR or an analysis state are listed above as notes; whether any changes the warnings of some input is not decidable from the shape of the code" % nsens)
